@@ -125,6 +125,13 @@ func EncodeRR(r Rec) ([]byte, error) {
 	if !r.Name.Valid() {
 		return nil, ErrUnrepresentable
 	}
+	if !r.NoRdata {
+		for _, f := range r.Fields {
+			if !fieldRepresentable(f) {
+				return nil, ErrUnrepresentable
+			}
+		}
+	}
 	rd := EncodeRdata(r)
 	if len(rd) > 65535 {
 		return nil, ErrUnrepresentable
@@ -178,4 +185,45 @@ func Encode(m Msg) ([]byte, error) {
 		}
 	}
 	return out, nil
+}
+
+// fieldRepresentable checks the length limits the wire format imposes on a field.
+func fieldRepresentable(f Field) bool {
+	switch f.K {
+	case NameC, NameU:
+		return f.N.Valid()
+	case Names:
+		for _, n := range f.NL {
+			if !n.Valid() {
+				return false
+			}
+		}
+	case Str, L8:
+		return len(f.B) <= 255
+	case Strs:
+		for _, s := range f.L {
+			if len(s) > 255 {
+				return false
+			}
+		}
+	case L16:
+		return len(f.B) <= 65535
+	case GW:
+		return f.U != 3 || f.N.Valid()
+	case HIPHdr:
+		return len(f.B) <= 255 && len(f.B2) <= 65535
+	case APLs:
+		for _, it := range f.APL {
+			if len(it.Afd) > 127 {
+				return false
+			}
+		}
+	case Opts, Params:
+		for _, o := range f.Opts {
+			if len(o.Data) > 65535 {
+				return false
+			}
+		}
+	}
+	return true
 }
